@@ -209,6 +209,13 @@ class lock_factory:
 _ACTIVE = [None]
 _INSTALLED = [False]
 CURRENT = [None]  # the schedule in progress, for explicit yield points in harness callbacks
+_REG = [None]  # registry of the schedule being built (for new_lock)
+
+
+def new_lock():
+    """A scheduler-aware lock for a component whose lock was created out of the factory's reach (e.g. a dataclass
+    field whose default_factory captured the real threading.Lock at class definition).  None outside a schedule."""
+    return SchedLock(_REG[0]) if _REG[0] is not None else None
 
 
 def point():
@@ -223,11 +230,19 @@ def me():
     return s.me() if s is not None else None
 
 
+COMPONENT_FILES = ("budget.py", "circuit.py", "strategies.py")
+LINE_FILES = [None]  # None: every file of the package; else the basenames in which a line is a pre-emption point
+
+
 def _on_line(code, line):
-    if not code.co_filename.startswith(PKG):
+    fn = code.co_filename
+    if not fn.startswith(PKG):
         return mon.DISABLE
     s = _ACTIVE[0]
     if s is not None:
+        lf = LINE_FILES[0]
+        if lf is not None and os.path.basename(fn) not in lf:
+            return None
         s.line_events += 1
         s.yield_point()
     return None
@@ -272,27 +287,32 @@ def build(make, reg=None):
     return obj, reg, how
 
 
-def run_schedule(make, programs, prefix=(), rng=None, watchdog_s=20.0, line_level=True, preempt_p=0.3):
+def run_schedule(make, programs, prefix=(), rng=None, watchdog_s=20.0, line_level=True, preempt_p=0.3, yield_on_release=None):
     """Run one schedule of `programs` (list of lists of callables obj -> result) on a fresh component.
 
     line_level=True: pre-emption before every source line of the redress package (component races).
     line_level=False: pre-emption only at lock operations of the shared components and at explicit
     `point()` calls in harness callbacks (whole policy calls racing on shared components).
+    line_level="components": as False, plus every source line inside budget.py / circuit.py / strategies.py
+    (a thread can be parked INSIDE a component's critical section while another one arrives).
     """
     if line_level:
         install_monitor()
     reg = Registry()
     fac = lock_factory(reg)
     fac.__enter__()
+    _REG[0] = reg
     try:
-        return _run_schedule(make, programs, prefix, rng, watchdog_s, line_level, preempt_p, reg)
+        return _run_schedule(make, programs, prefix, rng, watchdog_s, line_level, preempt_p, reg, yield_on_release)
     finally:
+        _REG[0] = None
         fac.__exit__()
 
 
-def _run_schedule(make, programs, prefix, rng, watchdog_s, line_level, preempt_p, reg):
+def _run_schedule(make, programs, prefix, rng, watchdog_s, line_level, preempt_p, reg, yield_on_release):
     obj, reg, how = build(make, reg)
-    reg.yield_on_release = line_level
+    reg.yield_on_release = (line_level is True) if yield_on_release is None else yield_on_release
+    LINE_FILES[0] = COMPONENT_FILES if line_level == "components" else None
     s = Sched(len(programs), prefix, rng, preempt_p)
     reg.sched = s
     results = [[] for _ in programs]
